@@ -3,7 +3,7 @@
 id="$1"; prop="$2"; wt="$3"; out="/verif/seeded/$id"
 set -u
 cd "$wt" || exit 9
-git checkout -q -- . 2>/dev/null; git stash -q 2>/dev/null; git checkout -q -- .
+git checkout -q -- . 2>/dev/null
 mkdir -p examples; for f in OUT/*.rs; do [ -f "$f" ] && cp "$f" examples/; done
 demo=$(ls OUT/*.rs 2>/dev/null | head -1); demo=$(basename "${demo%.rs}")
 export CARGO_NET_OFFLINE=true
